@@ -382,6 +382,8 @@ class Shelxfile():
                 # Glue together the two lines wrapped with "=":
                 wrapindex += 1
                 line = line.rpartition('=')[0] + self._reslist[line_num + wrapindex]
+                # A line that no card below replaces stays text: it keeps its continuation lines verbatim.
+                self._reslist[line_num] += '\n' + self._reslist[line_num + wrapindex]
                 # self.delete_on_write.update([line_num + wrapindex])
                 list_of_lines.append(line_num + wrapindex)  # list containing the lines of a multiline command
                 # Do not activate this, otherwise, the unwrapping stops after two lines.
